@@ -70,6 +70,15 @@ class Check(RuntimeCheck):
                 'C09_no_verify_disables', 'C09_live_clone_panics', 'C09_other_thread_panics',
                 'C09_verify_on_clone_panics', 'C09_report_matches_verify', 'C09_only_original_can_fail']
 
+    def extra(self, rep, tier, seed):
+        # library-internal helper clones of default-method delegation (by-value, Rc/Arc, &mut, Pin receivers) must not make the original's verification see a live clone: the compiled delegation cases
+        from .macro_common import MacroCheck
+        class Generated(MacroCheck):
+            prop = 'C09'
+            case_prefixes = ('own.default', 'own.m2+default', 'rc.default.shared', 'arc.default.shared', 'ref.default', 'mut.default', 'pin.m2+default')
+            facts_of_interest = r'$^'
+        Generated().explore_into(rep, tier, seed, ir=False, merge=True)
+
     def rule(self):
         return ("exhaustive DFS over lifecycle event sequences of length <=3 (quick) / <=4 (thorough) over {clone of any live "
                 "instance, drop on creator/other thread, call, call of a provided method (creates the helper clone), verify(), "
